@@ -135,6 +135,77 @@ def h_chain(ctx):
                 return
 
 
+def h_notify(ctx):
+    """Requests issued from INSIDE the notification of a publication (push-type consumer behind the chain): the
+    delay-to-push rule min(t, newest publication) must already count the publication being announced."""
+    chain, npub = ctx.params["chain"], ctx.params["publications"]
+    hlib.reset_finam_state()
+    t0 = ctx.dt("t0")
+    adas, specs = [], []
+    for i, k in enumerate(chain):
+        a, s_ = _make(ctx, k, str(i))
+        adas.append(a)
+        specs.append(s_)
+    out = Output(name="out", info=fm.Info(time=t0, grid=fm.NoGrid(), units="m"))
+    seen, ret, results = [], [], []
+    state = {"newest": None, "k": 0}
+    nscale = sum(1 for k in chain if k == "scale")
+
+    def callback(caller, time):
+        # the consumer reacts to the notification by pulling the announced time
+        t_spec = time
+        arrivals = []
+        for s_ in reversed(specs):
+            arrivals.append(t_spec)
+            if s_ is not None:
+                t_spec = s_.shift(t_spec, t0, state["newest"])
+        del seen[:], ret[:]
+        try:
+            d = caller.pull_data(time)
+            res = "ok"
+        except FinamTimeError:
+            res = "time-error"
+        except FinamNoDataError:
+            res = "no-data"
+        for s_, arr in zip(reversed(specs), arrivals):
+            if s_ is not None:
+                s_.pulled(arr)
+        results.append((res, t_spec, list(seen), list(ret), d if res == "ok" else None))
+
+    inp = fm.CallbackInput(callback, name="in", info=fm.Info(time=None, grid=None, units=None))
+    cur = out
+    for a in adas:
+        cur = cur >> a
+    cur >> inp
+    inp.ping()
+    inp.exchange_info()
+    times = []
+    with hlib.Spy() as spy:
+        spy.wrap(Output, "get_data", before=lambda sp, o, time, target: seen.append(time) if o is out else None,
+                 after=lambda sp, o, a, k, r, e: ret.append(None if e is not None else float(hlib.tagval(r)))
+                 if o is out else None)
+        for i in range(npub):
+            t = t0 if not times else times[-1] + ctx.td(f"g{i - 1}", lo_us=1)
+            times.append(t)
+            state["newest"] = t  # the publication being announced is the newest one
+            n_before = len(results)
+            out.push_data(np.array(float(i)), t)
+            ctx.check(len(results) == n_before + 1, "consumer-not-notified-exactly-once", {"sig": "+".join(chain)})
+            if len(results) != n_before + 1:
+                return
+            res, t_spec, seen_, ret_, d = results[-1]
+            ctx.cover("notified:" + res)
+            ctx.log(f"pub{i}", [res, seen_[0] if seen_ else None])
+            if res != "ok":
+                ctx.fail("request-from-notification-refused", {"sig": "+".join(chain) + ":" + res})
+                return
+            if len(seen_) != 1:
+                ctx.fail("source-asked-not-exactly-once", {"sig": str(len(seen_))})
+                return
+            ctx.check(ctx.eq(seen_[0], t_spec), "source-asked-for-wrong-time", {"sig": "+".join(chain) + ":notify", "pub": i})
+            ctx.check(float(hlib.tagval(d)) == ret_[0] * (2.0 ** nscale), "delivered-data-not-the-source-data")
+
+
 EXPLANATION = (
     "Bounded symbolic execution (symx proxies + z3) of the real DelayFixed/DelayToPull/DelayToPush.with_delay, "
     "TimeDelayAdapter.get_data/_pulled and Adapter/Scale.get_data in chains of 1-3 delay adapters behind a real "
@@ -143,7 +214,9 @@ EXPLANATION = (
     "independent re-statement of the documented shifts (max(t-d,start); n-th previous request minus extra, not "
     "before start; min(t, newest publication)) composed in pull order; z3 must refute PC ∧ t_arrived ≠ t_spec; the "
     "delivered payload must be the payload the source returned for that time. The same equality is asserted inside "
-    "real Composition runs (what the driver scheduled for = what is requested) on delay topologies."
+    "real Composition runs (what the driver scheduled for = what is requested) on delay topologies. The 'notify' "
+    "families put a push-type consumer (CallbackInput) behind the chain that pulls the announced time from inside "
+    "every publication notification: the newest publication must already count for min(t, newest)."
 )
 ASSUMPTIONS = ["requests are non-decreasing and not before the start time",
                "a scenario ends at the first pull the source refuses (a run aborts there)",
@@ -180,6 +253,15 @@ def families(tier):
             bounds=f"adapter chain (source side first) {chain}; event pattern {pat}; symbolic delays >= 0, gaps >= 1 us, "
                    f"non-decreasing requests >= start",
             must_cover=["req:ok"]))
+    for chain in ([["dpush"], ["scale", "dpush"], ["dpush", "scale"]] if q else
+                  [["dpush"], ["scale", "dpush"], ["dpush", "scale"], ["dfix", "dpush"], ["dpush", "dfix"], ["dfix"],
+                   ["dpull2"]]):
+        fams.append(dict(
+            name="notify:" + "+".join(chain), ref="vf.props.c13:h_notify",
+            params={"chain": chain, "publications": 3 if q else 4},
+            bounds=f"adapter chain (source side first) {chain} in front of a push-type consumer that pulls the announced "
+                   f"time from inside every notification; {3 if q else 4} publications with symbolic gaps",
+            must_cover=["notified:ok"]))
     D, R = topos.DAGS, topos.RINGS_OK
     runs = [("ab_dfix", D["ab_dfix"], 4, 6, {}), ("ab_dpull", D["ab_dpull"], 4, 6, {}),
             ("ab_dpush", D["ab_dpush"], 0, 6, {}),
